@@ -118,6 +118,16 @@ MEMBERS = {
     'read_before_bind': ["gx0 = 'pre:' + GX", "GX = 'member'", "gx1 = GX", "ln0 = len('abc')", "len = 'shadowed'", "ln1 = len",
                          "for _i in range(2):", "    if _i:", "        late = 'bound-on-second-pass'", "    seen_late = late if _i else 'not-yet'",
                          "def rb(self, a=GX, b=len):", "    return (a, b, GX)"],
+    # zero-argument super() in every *header* position of loops and branches (while test, for iterable, if test, loop else)
+    'super0_in_headers': ["def who(self):", "    out = []", "    n = 0",
+                          "    while n < 2 and (super().who() if hasattr(super(), 'who') else '-') != 0:", "        n += 1", "        out.append(n)",
+                          "    else:", "        out.append(('welse', hasattr(super(), 'who')))",
+                          "    for q in [super().__init__ is not None, hasattr(super(), 'who')]:", "        if hasattr(super(), 'who') or q:", "            out.append(q)",
+                          "    else:", "        out.append('felse')",
+                          "    while hasattr(super(), '__init__'):", "        while hasattr(super(), 'nope'):", "            pass", "        break",
+                          "    return out + [t for t in [1] if hasattr(super(__class__, self), '__init__')]",
+                          "@classmethod", "def c(cls):", "    k = 0", "    while hasattr(super(), '__init__') and k < 1:", "        k += 1",
+                          "    return ('c-while-test', k, cls.__name__)"],
     # functions nested in a method that mention super / __class__ (implicit cell of the nearest class, PEP 3135)
     'super_nested': ["def who(self):", "    def helper():", "        return 'N>' + (super(__class__, self).who() if hasattr(super(__class__, self), 'who') else '-')",
                      "    def helper0(me, /, *rest):", "        return 'Z>' + (super().who() if hasattr(super(), 'who') else '-')",
@@ -274,6 +284,10 @@ def run_case(rec, hdr, members, pl, cfg):
     kid = findings.attribute(trig, o.status)
     if kid:
         rec.known_finding(kid)
+        return
+    why = observe.interpreter_defect_312(o, src, OBS)
+    if why:
+        rec.inconc(why)
         return
     rec.violation(o.status, case, o.detail)
 
